@@ -231,6 +231,7 @@ PROPS['C03'] = Prop(
            Run('cl_threads_s2_hooks_p1', 'cl_threads.cpp', {'TT': 2, 'SS': 2, 'OPSET': 1}, preempt=1, covers=4, mt=True, bounds=_TH % ('CallbackList', 'instrumented policy', 2, 2, 1, _SP_HOOKS) + '; reduced operation alphabet (append, prepend, insert-before-B, remove B, ownsHandle B, invoke)'),
            Run('cl_threads_s1_auto_p2', 'cl_threads.cpp', {'TT': 2, 'SS': 1}, preempt=2, covers=4, optional_covers=(2,), mt=True, shared_points=True, native=(), bounds=_TH % ('CallbackList', 'instrumented policy', 2, 1, 2, _SP_AUTO)),
            Run('cl_threads_s1_empty_hooks_p2', 'cl_threads.cpp', {'TT': 2, 'SS': 1, 'INIT': 0}, preempt=2, covers=4, optional_covers=(0, 1, 2), mt=True, bounds=_TH % ('CallbackList', 'instrumented policy', 2, 1, 2, _SP_HOOKS) + '; list initially EMPTY (handles A, B are empty handles)'),
+           Run('disp_threads_s1_empty_hooks_p2', 'cl_threads.cpp', {'TT': 2, 'SS': 1, 'DISP': 1, 'INIT': 0}, preempt=2, covers=4, optional_covers=(0, 1, 2), mt=True, bounds=_TH % ('EventDispatcher', 'instrumented policy', 2, 1, 2, _SP_HOOKS) + '; no listener registered yet for the event (the per-event list is created by the racing calls)'),
            Run('disp_threads_s1_hooks_p2', 'cl_threads.cpp', {'TT': 2, 'SS': 1, 'DISP': 1}, preempt=2, covers=4, optional_covers=(2,), mt=True, bounds=_TH % ('EventDispatcher', 'instrumented policy', 2, 1, 2, _SP_HOOKS))],
     thorough=[Run('cl_threads_s2_hooks_p2', 'cl_threads.cpp', {'TT': 2, 'SS': 2}, preempt=2, covers=4, mt=True, budget_s=1700, bounds=_TH % ('CallbackList', 'instrumented policy', 2, 2, 2, _SP_HOOKS)),
               Run('cl_threads_s2_auto_p1', 'cl_threads.cpp', {'TT': 2, 'SS': 2, 'OPSET': 1}, preempt=1, covers=4, mt=True, shared_points=True, native=(), budget_s=1700, bounds=_TH % ('CallbackList', 'instrumented policy', 2, 2, 1, _SP_AUTO) + '; reduced alphabet'),
@@ -244,10 +245,12 @@ _QT = ('EventQueue, instrumented Threading policy; 0..2 events pending at the st
 _OPS1 = 'enqueue, process, processOne, takeEvent'
 _OPS2 = 'enqueue, processIf, processUntil, takeEvent, clearEvents'
 _OPS0 = 'enqueue, process, processOne, processIf, processUntil, takeEvent, peekEvent, clearEvents'
+_OPS3 = 'enqueue, takeEvent, peekEvent'
 PROPS['C06'] = Prop(
     quick=[Run('q_threads_ops1_s2_p1', 'q_threads.cpp', {'MODE': 6, 'TT': 2, 'SS': 2, 'OPSET': 1}, preempt=1, covers=2, mt=True, bounds=_QT % (2, 2, _OPS1, '', 1, _SP_HOOKS)),
            Run('q_threads_ops2_s1_p2', 'q_threads.cpp', {'MODE': 6, 'TT': 2, 'SS': 1, 'OPSET': 2}, preempt=2, covers=2, optional_covers=(0,), mt=True, bounds=_QT % (2, 1, _OPS2, '', 2, _SP_HOOKS)),
-           Run('q_threads_all_s1_auto_p1', 'q_threads.cpp', {'MODE': 6, 'TT': 2, 'SS': 1, 'OPSET': 0}, preempt=1, covers=2, mt=True, shared_points=True, native=(), bounds=_QT % (2, 1, _OPS0, '', 1, _SP_AUTO))],
+           Run('q_threads_all_s1_auto_p1', 'q_threads.cpp', {'MODE': 6, 'TT': 2, 'SS': 1, 'OPSET': 0}, preempt=1, covers=2, mt=True, shared_points=True, native=(), bounds=_QT % (2, 1, _OPS0, '', 1, _SP_AUTO)),
+           Run('q_threads_peek_s2_auto_p1', 'q_threads.cpp', {'MODE': 6, 'TT': 2, 'SS': 2, 'OPSET': 3}, preempt=1, covers=2, optional_covers=(0,), mt=True, shared_points=True, native=(), bounds=_QT % (2, 2, _OPS3, '', 1, _SP_AUTO))],
     thorough=[Run('q_threads_all_s2_p1', 'q_threads.cpp', {'MODE': 6, 'TT': 2, 'SS': 2, 'OPSET': 0}, preempt=1, covers=2, mt=True, budget_s=1700, bounds=_QT % (2, 2, _OPS0, '', 1, _SP_HOOKS)),
               Run('q_threads_ops1_s2_p2', 'q_threads.cpp', {'MODE': 6, 'TT': 2, 'SS': 2, 'OPSET': 1}, preempt=2, covers=2, mt=True, budget_s=1700, bounds=_QT % (2, 2, _OPS1, '', 2, _SP_HOOKS)),
               Run('q_threads_ops2_s2_p2', 'q_threads.cpp', {'MODE': 6, 'TT': 2, 'SS': 2, 'OPSET': 2}, preempt=2, covers=2, mt=True, budget_s=1700, bounds=_QT % (2, 2, _OPS2, '', 2, _SP_HOOKS)),
